@@ -115,6 +115,18 @@ def run(ctx):
                 c2 = strip(c2["recv"])
             base = unparse(c2) if c2 is not None else ""
             narrowed = [m for m in chain if m in NARROW]
+            # TOMB: a store (Vec<Option<T>>) handed over raw writes a null for every removed item; no reader accepts that
+            mself = re.match(r"^self\.(\w+)$", base)
+            if mself and not chain:
+                stname = re.sub(r"<.*", "", wkey_)
+                st_ = syn.structs.get(stname)
+                fty = ""
+                if st_:
+                    for f_ in st_["fields"]:
+                        if f_["name"] == mself.group(1):
+                            fty = re.sub(r"\s+", "", f_["ty"]["s"])
+                if re.match(r"^(Store<|Vec<Option<)", fty):
+                    ctx.report(r_whole, "%s|%s|raw-store" % (wkey_, fname), "the writer of %s emits %s straight from the store `%s` (%s): the slot of every removed item is written as null, which the reader rejects, so a store cannot be loaded again after a deletion" % (wkey_, fname, base, fty), im_.get("_file"), c.get("l"))
             if narrowed and re.match(r"self\.\w+", base):
                 ctx.report(r_whole, "%s|%s|%s" % (wkey_, fname, narrowed[-1]), "the writer of %s emits %s from `%s` narrowed by .%s(): items of a persisted collection that do not pass are silently lost on save" % (wkey_, fname, base, narrowed[-1]), im_.get("_file"), c.get("l"))
     ctx.floor(r_whole, nw, 30, "serialised fields / elements")
